@@ -288,6 +288,20 @@ func (p *provider) setSingleton(key instanceKey, instance any) {
 	}
 }
 
+// cacheSingleton stores a singleton under one more identity (an interface alias of a registration whose instance is
+// already tracked for disposal).
+func (p *provider) cacheSingleton(key instanceKey, instance any) {
+	if instance == nil {
+		return
+	}
+
+	p.singletons.Store(key, instance)
+
+	p.singletonKeysMu.Lock()
+	p.singletonKeys = append(p.singletonKeys, key)
+	p.singletonKeysMu.Unlock()
+}
+
 // findDescriptor finds a descriptor for the given service type and optional key.
 // Returns nil if no matching descriptor is found in the service registry.
 func (p *provider) findDescriptor(serviceType reflect.Type, key any) *Descriptor {
